@@ -119,7 +119,7 @@ impl Node {
                     2 => datasketches::common::ResizeFactor::X4,
                     _ => datasketches::common::ResizeFactor::X8,
                 };
-                Node::Theta(ThetaSketch::builder().lg_k((cfg.a as u8).clamp(5, 14)).resize_factor(rf).sampling_probability([1.0f32, 1.0, 0.3, 0.01][(cfg.b / 4 % 4) as usize]).build())
+                Node::Theta(ThetaSketch::builder().lg_k((cfg.a as u8).clamp(5, 17)).resize_factor(rf).sampling_probability([1.0f32, 1.0, 0.3, 0.01][(cfg.b / 4 % 4) as usize]).build())
             }
             "bloom" => Node::Bloom(BloomFilterBuilder::with_size(cfg.a.clamp(1, 1 << 18), (cfg.b as u16).clamp(1, 32)).seed(cfg.seed).build()),
             "cm" => {
@@ -182,6 +182,13 @@ impl Node {
                             s.verif_update_with_coupon(((v + 17 + slot % 7).min(63) << 26) | slot);
                         }
                     }
+                }
+            }
+            Node::Theta(s) => {
+                let n = 66_000 + (cols as u64 % 4) * 15_000 + seed % 15_000;
+                let mut r = Rng::new(seed);
+                for _ in 0..n {
+                    s.verif_insert_hash(r.next_u64() & (i64::MAX as u64));
                 }
             }
             Node::Cpc(s) => {
@@ -596,6 +603,11 @@ impl Scenario for C11 {
             acts.push(Act::Checkpoint { sync: true });
             acts.push(Act::Crash { torn: false });
         }
+        if fam == "theta" && rng.chance(1, 150) {
+            // spot run with more than 65535 retained entries (three-byte entry count in the compressed form)
+            let cfg = Cfg { fam: fam.to_string(), a: *rng.pick(&[16u64, 17]), b, seed: cfg.seed };
+            return (cfg, vec![Act::Fill { cols: rng.range(0, 3) as u8, seed: rng.next_u64() }, Act::Compare, Act::Update { vals: vec![1, 2, 3], w: 0 }, Act::Compare]);
+        }
         for _ in 0..steps {
             let n = match rng.below(5) {
                 0 => rng.usize_below(9),
@@ -666,6 +678,12 @@ impl Scenario for C11 {
         let tainted = std::cell::Cell::new(false);
         let compare = |p: &mut Node, t: &mut Node, when: &str, st: &mut RunStats, var: u64| -> Result<(), Violation> {
             if let Node::Theta(s) = t {
+                if s.num_retained() > 60_000 {
+                    // rare large state: every form (ordered / unordered, compressed / not)
+                    for v in [var ^ 1, var ^ 2, var ^ 3] {
+                        theta_degenerate(s, v, st)?;
+                    }
+                }
                 return theta_degenerate(s, var, st);
             }
             let (op, ot) = lib_call("accessors", || (p.observe(), t.observe()))?;
